@@ -17,3 +17,48 @@ Theorem C04_paths_tuple : forall tg ns : list string,
   rel_to_abs_tuple (abs_to_rel_tuple tg ns) ns = tg.
 Proof. exact tuple_roundtrip. Qed.
 Print Assumptions C04_paths_tuple.
+
+(** ---- directory vs zip archive (Serial/ZipFS.v, Serial/Layout.v) ---------- *)
+From Coq Require Import NArith Bool.
+From MX Require Import Serial.ZipFS Serial.ZipFSProofs Serial.Layout Serial.LayoutProofs.
+
+(** for every sequence of writes to pairwise distinct paths: whenever the
+    directory writer (last write wins, parents must be directories) succeeds,
+    the archive writer (first write wins, ziputil.write_file) succeeds with the
+    very same path -> content map, in the same order *)
+Theorem C04_zip_eq_dir : forall (ws : list (path * content)) (d : fs),
+  NoDup (map fst ws) -> run_dir ws = Some d -> run_zip ws = Some d.
+Proof. exact zip_eq_dir. Qed.
+Print Assumptions C04_zip_eq_dir.
+
+(** distinct, prefix-free paths: both writers succeed and hold exactly the written files *)
+Theorem C04_zip_dir_total : forall ws : list (path * content),
+  NoDup (map fst ws) -> prefix_free (map fst ws) ->
+  run_dir ws = Some ws /\ run_zip ws = Some ws.
+Proof. exact zip_dir_total. Qed.
+Print Assumptions C04_zip_dir_total.
+
+(** when paths repeat the containers differ: the archive keeps the first
+    content written to a path, the directory the last one *)
+Theorem C04_zip_first_dir_last : forall ws z d p,
+  run_zip ws = Some z -> run_dir ws = Some d ->
+  lookup p z = first_write p ws /\ lookup p d = last_write p ws.
+Proof. intros ws z d p Hz Hd. split; [exact (zip_first_wins ws z p Hz)|exact (dir_last_wins ws d p Hd)]. Qed.
+Print Assumptions C04_zip_first_dir_last.
+
+(** the write plan of ModelWriter for any space tree whose entry names are
+    distinct per directory consists of pairwise distinct, prefix-free paths ... *)
+Theorem C04_writer_plan_distinct : forall spaces pickled,
+  wf_layout spaces pickled = true ->
+  NoDup (write_plan spaces pickled) /\ prefix_free (write_plan spaces pickled).
+Proof. exact plan_distinct_prefix_free. Qed.
+Print Assumptions C04_writer_plan_distinct.
+
+(** ... hence, whatever is written to the planned files, the zip archive and
+    the directory hold the same files: exactly the planned ones *)
+Theorem C04_writer_zip_eq_dir : forall spaces pickled (ws : list (path * content)),
+  wf_layout spaces pickled = true ->
+  map fst ws = write_plan spaces pickled ->
+  run_dir ws = Some ws /\ run_zip ws = Some ws.
+Proof. exact writer_zip_eq_dir. Qed.
+Print Assumptions C04_writer_zip_eq_dir.
